@@ -86,7 +86,7 @@ def rule_slot(ctx):
                 for p in ps:
                     if field_of_self(p, nm):
                         reads[nm].append((b, st))
-    for nm, minreads in (("reference", 2), ("lf_frame", 1)):
+    for nm, minreads in (("reference", 1), ("lf_frame", 1)):      # one read suffices: a local copy may feed both the record and the loop
         if len(stores[nm]) != 1:
             ctx.bad(rid, "slot-store-count:" + nm, "expected exactly one store into self.%s[..], found %d" % (nm, len(stores[nm])), fn=f)
             continue
